@@ -44,6 +44,12 @@ pub struct KnownFinding {
 	pub fixed: bool,
 }
 
+static KNOWN: std::sync::OnceLock<Vec<KnownFinding>> = std::sync::OnceLock::new();
+
+pub fn known_findings() -> &'static Vec<KnownFinding> {
+	KNOWN.get_or_init(load_known_findings)
+}
+
 pub fn load_known_findings() -> Vec<KnownFinding> {
 	let p = verif_root().join("known_findings.jsonl");
 	let mut v = vec![];
@@ -74,7 +80,7 @@ pub fn load_known_findings() -> Vec<KnownFinding> {
 
 /// Does a (minimised) violation match a listed, unfixed finding of this property?
 pub fn match_known(property: &str, rendering: &str) -> Option<KnownFinding> {
-	for k in load_known_findings() {
+	for k in known_findings().iter().cloned() {
 		if k.fixed || k.property != property || k.signature.is_empty() {
 			continue
 		}
@@ -128,6 +134,18 @@ impl Run {
 	pub fn sample(&mut self, v: J) {
 		if self.samples.len() < 6 {
 			self.samples.push(v);
+		}
+	}
+
+	/// A listed finding was hit `n` times during exploration (tolerated): print it once.
+	pub fn known_hit(&mut self, id: &str, n: u64) {
+		if let Some(k) = known_findings().iter().find(|k| k.id == id) {
+			let line = format!("KNOWN-FINDING: property={} {} [{}]", self.property, k.what, k.id);
+			if !self.known.contains(&line) {
+				println!("{}", line);
+				self.known.push(line);
+			}
+			self.add_count(&format!("known_finding_hits:{}", id), n);
 		}
 	}
 
